@@ -1,5 +1,9 @@
 // C15 harnesses: the protocol-independent view returns exactly the protocol-specific fields.
 // Injected as `#[cfg(kani)] mod verif_common;` at the end of crates/lib/src/lib.rs of a scratch copy.
+// common_epic needs feature `tls`; common_minetest needs `tls` + `serde` (+ default `services`, `games`). `cargo kani
+// --features` is rejected by the workspace (gamedig_cli has no such features), so add "tls", "serde" to `default` in
+// crates/lib/Cargo.toml of the scratch copy. Without them those two harnesses are compiled out; all others need only
+// the default features.
 #![allow(dead_code, unused_imports)]
 use crate::protocols::types::{CommonPlayer, CommonResponse};
 use crate::protocols::{GenericResponse};
@@ -7,6 +11,12 @@ use crate::protocols::types::GenericPlayer;
 
 fn same_str(a: &str, b: &str) -> bool { a.as_ptr() == b.as_ptr() && a.len() == b.len() }
 fn opt_same(a: Option<&str>, b: &str) -> bool { match a { Some(x) => same_str(x, b), None => false } }
+
+// `HashMap::new()` / `HashSet::new()` reach `RandomState::new()`, whose thread-local key initialisation ends in a raw
+// `syscall` Kani cannot model. An empty table with fixed hash keys is the same value for the purposes of these harnesses.
+fn fixed_state() -> std::hash::RandomState { unsafe { core::mem::transmute::<[u64; 2], std::hash::RandomState>([0, 0]) } }
+fn empty_map<K, V>() -> std::collections::HashMap<K, V> { std::collections::HashMap::with_hasher(fixed_state()) }
+fn empty_set<K>() -> std::collections::HashSet<K> { std::collections::HashSet::with_hasher(fixed_state()) }
 
 #[kani::proof]
 #[kani::unwind(4)]
@@ -44,5 +54,656 @@ fn common_valve() {
     assert!(j.players_maximum == r.players_maximum() && j.players_online == r.players_online() && j.players_bots == r.players_bots() && j.has_password == r.has_password());
     let jp = j.players.as_ref().unwrap();
     assert!(jp.len() == 1 && same_str(jp[0].name, &p0.name) && jp[0].score == Some(p0.score));
+    core::mem::forget(j); core::mem::forget(ps); core::mem::forget(r);
+}
+
+// ---------------------------------------------------------------------------------------------
+// GameSpy 1/2/3
+// ---------------------------------------------------------------------------------------------
+
+#[kani::proof]
+#[kani::unwind(4)]
+fn common_gamespy_one() {
+    use crate::protocols::gamespy::one::{Player, Response};
+    use crate::protocols::gamespy::{VersionedPlayer, VersionedResponse};
+    let p = Player {
+        name: String::from("pl"), team: None, ping: kani::any(), face: None, skin: None, mesh: None,
+        score: kani::any(), deaths: None, health: None, secret: None,
+    };
+    let r = Response {
+        name: String::from("nm"), map: String::from("mp"), map_title: None, admin_contact: None, admin_name: None,
+        has_password: kani::any(), game_mode: String::from("gm"), game_version: String::from("v"),
+        players_maximum: kani::any(), players_online: kani::any(), players_minimum: None,
+        players: vec![p], tournament: kani::any(), unused_entries: empty_map(),
+    };
+    assert!(opt_same(r.name(), &r.name));
+    assert!(opt_same(r.map(), &r.map));
+    assert!(opt_same(r.game_mode(), &r.game_mode));
+    assert!(opt_same(r.game_version(), &r.game_version));
+    assert!(r.description().is_none());
+    assert!(r.players_maximum() == r.players_maximum);
+    assert!(r.players_online() == r.players_online);
+    assert!(r.players_bots().is_none());
+    assert!(r.has_password() == Some(r.has_password));
+    let ps = r.players().unwrap();
+    assert!(ps.len() == 1);
+    let p0 = &r.players[0];
+    assert!(same_str(ps[0].name(), &p0.name));
+    assert!(ps[0].score() == Some(p0.score));
+    match ps[0].as_original() { GenericPlayer::Gamespy(VersionedPlayer::One(x)) => assert!(core::ptr::eq(x, p0)), _ => assert!(false) }
+    match r.as_original() { GenericResponse::GameSpy(VersionedResponse::One(x)) => assert!(core::ptr::eq(x, &r)), _ => assert!(false) }
+    let j = r.as_json();
+    assert!(j.name == r.name() && j.map == r.map() && j.game_mode == r.game_mode() && j.game_version == r.game_version() && j.description.is_none());
+    assert!(j.players_maximum == r.players_maximum() && j.players_online == r.players_online() && j.players_bots.is_none() && j.has_password == r.has_password());
+    let jp = j.players.as_ref().unwrap();
+    assert!(jp.len() == 1 && same_str(jp[0].name, &p0.name) && jp[0].score == Some(p0.score));
+    core::mem::forget(j); core::mem::forget(ps); core::mem::forget(r);
+}
+
+#[kani::proof]
+#[kani::unwind(4)]
+fn common_gamespy_two() {
+    use crate::protocols::gamespy::two::{Player, Response, Team};
+    use crate::protocols::gamespy::{VersionedPlayer, VersionedResponse};
+    let p = Player { name: String::from("pl"), score: kani::any(), ping: kani::any(), team_index: kani::any() };
+    let r = Response {
+        name: String::from("nm"), map: String::from("mp"), has_password: kani::any(),
+        teams: vec![Team { name: String::from("t"), score: kani::any() }],
+        players_maximum: kani::any(), players_online: kani::any(), players_minimum: None,
+        players: vec![p], unused_entries: empty_map(),
+    };
+    assert!(opt_same(r.name(), &r.name));
+    assert!(opt_same(r.map(), &r.map));
+    assert!(r.game_mode().is_none());
+    assert!(r.game_version().is_none());
+    assert!(r.description().is_none());
+    assert!(r.players_maximum() == r.players_maximum);
+    assert!(r.players_online() == r.players_online);
+    assert!(r.players_bots().is_none());
+    assert!(r.has_password() == Some(r.has_password));
+    let ps = r.players().unwrap();
+    assert!(ps.len() == 1);
+    let p0 = &r.players[0];
+    assert!(same_str(ps[0].name(), &p0.name));
+    assert!(ps[0].score() == Some(p0.score as i32));
+    match ps[0].as_original() { GenericPlayer::Gamespy(VersionedPlayer::Two(x)) => assert!(core::ptr::eq(x, p0)), _ => assert!(false) }
+    match r.as_original() { GenericResponse::GameSpy(VersionedResponse::Two(x)) => assert!(core::ptr::eq(x, &r)), _ => assert!(false) }
+    let j = r.as_json();
+    assert!(j.name == r.name() && j.map == r.map() && j.game_mode.is_none() && j.game_version.is_none() && j.description.is_none());
+    assert!(j.players_maximum == r.players_maximum() && j.players_online == r.players_online() && j.players_bots.is_none() && j.has_password == r.has_password());
+    let jp = j.players.as_ref().unwrap();
+    assert!(jp.len() == 1 && same_str(jp[0].name, &p0.name) && jp[0].score == Some(p0.score as i32));
+    core::mem::forget(j); core::mem::forget(ps); core::mem::forget(r);
+}
+
+#[kani::proof]
+#[kani::unwind(4)]
+fn common_gamespy_three() {
+    use crate::protocols::gamespy::three::{Player, Response, Team};
+    use crate::protocols::gamespy::{VersionedPlayer, VersionedResponse};
+    let p = Player { name: String::from("pl"), score: kani::any(), ping: kani::any(), team: kani::any(), deaths: kani::any(), skill: kani::any() };
+    let r = Response {
+        name: String::from("nm"), map: String::from("mp"), has_password: kani::any(),
+        game_mode: String::from("gm"), game_version: String::from("v"),
+        players_maximum: kani::any(), players_online: kani::any(), players_minimum: None,
+        players: vec![p], teams: vec![Team { name: String::from("t"), score: kani::any() }],
+        tournament: kani::any(), unused_entries: empty_map(),
+    };
+    assert!(opt_same(r.name(), &r.name));
+    assert!(opt_same(r.map(), &r.map));
+    assert!(opt_same(r.game_mode(), &r.game_mode));
+    assert!(opt_same(r.game_version(), &r.game_version));
+    assert!(r.description().is_none());
+    assert!(r.players_maximum() == r.players_maximum);
+    assert!(r.players_online() == r.players_online);
+    assert!(r.players_bots().is_none());
+    assert!(r.has_password() == Some(r.has_password));
+    let ps = r.players().unwrap();
+    assert!(ps.len() == 1);
+    let p0 = &r.players[0];
+    assert!(same_str(ps[0].name(), &p0.name));
+    assert!(ps[0].score() == Some(p0.score));
+    match ps[0].as_original() { GenericPlayer::Gamespy(VersionedPlayer::Three(x)) => assert!(core::ptr::eq(x, p0)), _ => assert!(false) }
+    match r.as_original() { GenericResponse::GameSpy(VersionedResponse::Three(x)) => assert!(core::ptr::eq(x, &r)), _ => assert!(false) }
+    let j = r.as_json();
+    assert!(j.name == r.name() && j.map == r.map() && j.game_mode == r.game_mode() && j.game_version == r.game_version() && j.description.is_none());
+    assert!(j.players_maximum == r.players_maximum() && j.players_online == r.players_online() && j.players_bots.is_none() && j.has_password == r.has_password());
+    let jp = j.players.as_ref().unwrap();
+    assert!(jp.len() == 1 && same_str(jp[0].name, &p0.name) && jp[0].score == Some(p0.score));
+    core::mem::forget(j); core::mem::forget(ps); core::mem::forget(r);
+}
+
+// ---------------------------------------------------------------------------------------------
+// Minecraft Java / Bedrock
+// ---------------------------------------------------------------------------------------------
+
+#[cfg(feature = "games")]
+#[kani::proof]
+#[kani::unwind(4)]
+fn common_java() {
+    use crate::games::minecraft::{JavaResponse, Player, Server, VersionedResponse};
+    let p = Player { name: String::from("pl"), id: String::from("id") };
+    let r = JavaResponse {
+        game_version: String::from("v"), protocol_version: kani::any(), players_maximum: kani::any(), players_online: kani::any(),
+        players: Some(vec![p]), description: String::from("ds"), favicon: None, previews_chat: None, enforces_secure_chat: None,
+        server_type: Server::Java,
+    };
+    assert!(r.name().is_none());
+    assert!(r.map().is_none());
+    assert!(r.game_mode().is_none());
+    assert!(opt_same(r.game_version(), &r.game_version));
+    assert!(opt_same(r.description(), &r.description));
+    assert!(r.players_maximum() == r.players_maximum);
+    assert!(r.players_online() == r.players_online);
+    assert!(r.players_bots().is_none());
+    assert!(r.has_password().is_none());
+    let ps = r.players().unwrap();
+    assert!(ps.len() == 1);
+    let p0 = &r.players.as_ref().unwrap()[0];
+    assert!(same_str(ps[0].name(), &p0.name));
+    assert!(ps[0].score().is_none());
+    match ps[0].as_original() { GenericPlayer::Minecraft(x) => assert!(core::ptr::eq(x, p0)), _ => assert!(false) }
+    match r.as_original() { GenericResponse::Minecraft(VersionedResponse::Java(x)) => assert!(core::ptr::eq(x, &r)), _ => assert!(false) }
+    let j = r.as_json();
+    assert!(j.name.is_none() && j.map.is_none() && j.game_mode.is_none() && j.game_version == r.game_version() && j.description == r.description());
+    assert!(j.players_maximum == r.players_maximum() && j.players_online == r.players_online() && j.players_bots.is_none() && j.has_password.is_none());
+    let jp = j.players.as_ref().unwrap();
+    assert!(jp.len() == 1 && same_str(jp[0].name, &p0.name) && jp[0].score.is_none());
+    core::mem::forget(j); core::mem::forget(ps); core::mem::forget(r);
+}
+
+// Everything of the Bedrock view except the presence of game_mode (see common_bedrock_game_mode).
+#[cfg(feature = "games")]
+#[kani::proof]
+#[kani::unwind(11)] // game mode names are compared by content (up to 9 bytes)
+fn common_bedrock() {
+    use crate::games::minecraft::{BedrockResponse, GameMode, Server, VersionedResponse};
+    let r = BedrockResponse {
+        edition: String::from("e"), name: String::from("nm"), version_name: String::from("v"), protocol_version: String::from("pv"),
+        players_maximum: kani::any(), players_online: kani::any(), id: Some(String::from("id")), map: Some(String::from("mp")),
+        game_mode: Some(GameMode::Survival), server_type: Server::Bedrock,
+    };
+    assert!(opt_same(r.name(), &r.name));
+    assert!(opt_same(r.map(), r.map.as_ref().unwrap()));
+    assert!(opt_same(r.game_version(), &r.version_name));
+    assert!(r.description().is_none());
+    assert!(r.players_maximum() == r.players_maximum);
+    assert!(r.players_online() == r.players_online);
+    assert!(r.players_bots().is_none());
+    assert!(r.has_password().is_none());
+    assert!(r.players().is_none());
+    match r.as_original() { GenericResponse::Minecraft(VersionedResponse::Bedrock(x)) => assert!(core::ptr::eq(x, &r)), _ => assert!(false) }
+    let j = r.as_json();
+    assert!(j.name == r.name() && j.map == r.map() && j.game_mode == r.game_mode() && j.game_version == r.game_version() && j.description.is_none());
+    assert!(j.players_maximum == r.players_maximum() && j.players_online == r.players_online() && j.players_bots.is_none() && j.has_password.is_none());
+    assert!(j.players.is_none());
+    core::mem::forget(j); core::mem::forget(r);
+}
+
+// Bedrock with an absent map: the accessor is None as well.
+#[cfg(feature = "games")]
+#[kani::proof]
+#[kani::unwind(4)]
+fn common_bedrock_no_map() {
+    use crate::games::minecraft::{BedrockResponse, Server};
+    let r = BedrockResponse {
+        edition: String::from("e"), name: String::from("nm"), version_name: String::from("v"), protocol_version: String::from("pv"),
+        players_maximum: kani::any(), players_online: kani::any(), id: None, map: None, game_mode: None, server_type: Server::Bedrock,
+    };
+    assert!(r.map().is_none());
+    assert!(r.game_mode().is_none());
+    let j = r.as_json();
+    assert!(j.map.is_none() && j.game_mode.is_none());
+    core::mem::forget(j); core::mem::forget(r);
+}
+
+// (was failing before the fix in /repo: see known_findings.txt) RESPONSES.md lists game_mode (`Option`) for Minecraft(Bedrock) and BedrockResponse has the
+// field `game_mode: Option<GameMode>` ("Current game mode."), but `impl CommonResponse for BedrockResponse` does not
+// override game_mode(), so the generic view (and its JSON form) always reports None.
+#[cfg(feature = "games")]
+#[kani::proof]
+#[kani::unwind(11)] // game mode names are compared by content (up to 9 bytes)
+fn common_bedrock_game_mode() {
+    use crate::games::minecraft::{BedrockResponse, GameMode, Server};
+    let r = BedrockResponse {
+        edition: String::from("e"), name: String::from("nm"), version_name: String::from("v"), protocol_version: String::from("pv"),
+        players_maximum: kani::any(), players_online: kani::any(), id: None, map: None,
+        game_mode: Some(GameMode::Survival), server_type: Server::Bedrock,
+    };
+    // the textual form GameMode::from_bedrock accepts for this variant
+    assert!(r.game_mode() == Some("Survival"));
+    let j = r.as_json();
+    assert!(j.game_mode == Some("Survival"));
+    core::mem::forget(j); core::mem::forget(r);
+}
+
+// ---------------------------------------------------------------------------------------------
+// Quake 1 / 2+3
+// ---------------------------------------------------------------------------------------------
+
+#[kani::proof]
+#[kani::unwind(4)]
+fn common_quake_one() {
+    use crate::protocols::quake::one::Player;
+    use crate::protocols::quake::{Response, VersionedResponse};
+    let p = Player {
+        id: kani::any(), score: kani::any(), time: kani::any(), ping: kani::any(), name: String::from("pl"), skin: String::from("sk"),
+        color_primary: kani::any(), color_secondary: kani::any(),
+    };
+    let r: Response<Player> = Response {
+        name: String::from("nm"), map: String::from("mp"), players: vec![p], players_online: kani::any(), players_maximum: kani::any(),
+        game_version: Some(String::from("v")), unused_entries: empty_map(),
+    };
+    assert!(opt_same(r.name(), &r.name));
+    assert!(opt_same(r.map(), &r.map));
+    assert!(r.game_mode().is_none());
+    assert!(opt_same(r.game_version(), r.game_version.as_ref().unwrap()));
+    assert!(r.description().is_none());
+    assert!(r.players_maximum() == r.players_maximum as u32);
+    assert!(r.players_online() == r.players_online as u32);
+    assert!(r.players_bots().is_none());
+    assert!(r.has_password().is_none());
+    let ps = r.players().unwrap();
+    assert!(ps.len() == 1);
+    let p0 = &r.players[0];
+    assert!(same_str(ps[0].name(), &p0.name));
+    assert!(ps[0].score() == Some(p0.score as i32));
+    match ps[0].as_original() { GenericPlayer::QuakeOne(x) => assert!(core::ptr::eq(x, p0)), _ => assert!(false) }
+    match r.as_original() { GenericResponse::Quake(VersionedResponse::One(x)) => assert!(core::ptr::eq(x, &r)), _ => assert!(false) }
+    let j = r.as_json();
+    assert!(j.name == r.name() && j.map == r.map() && j.game_mode.is_none() && j.game_version == r.game_version() && j.description.is_none());
+    assert!(j.players_maximum == r.players_maximum() && j.players_online == r.players_online() && j.players_bots.is_none() && j.has_password.is_none());
+    let jp = j.players.as_ref().unwrap();
+    assert!(jp.len() == 1 && same_str(jp[0].name, &p0.name) && jp[0].score == Some(p0.score as i32));
+    core::mem::forget(j); core::mem::forget(ps); core::mem::forget(r);
+}
+
+#[kani::proof]
+#[kani::unwind(4)]
+fn common_quake_two() {
+    use crate::protocols::quake::two::Player;
+    use crate::protocols::quake::{Response, VersionedResponse};
+    let p = Player { score: kani::any(), ping: kani::any(), name: String::from("pl"), address: None };
+    let r: Response<Player> = Response {
+        name: String::from("nm"), map: String::from("mp"), players: vec![p], players_online: kani::any(), players_maximum: kani::any(),
+        game_version: None, unused_entries: empty_map(),
+    };
+    assert!(opt_same(r.name(), &r.name));
+    assert!(opt_same(r.map(), &r.map));
+    assert!(r.game_mode().is_none());
+    assert!(r.game_version().is_none()); // the field is None here (Some is covered by common_quake_one)
+    assert!(r.description().is_none());
+    assert!(r.players_maximum() == r.players_maximum as u32);
+    assert!(r.players_online() == r.players_online as u32);
+    assert!(r.players_bots().is_none());
+    assert!(r.has_password().is_none());
+    let ps = r.players().unwrap();
+    assert!(ps.len() == 1);
+    let p0 = &r.players[0];
+    assert!(same_str(ps[0].name(), &p0.name));
+    assert!(ps[0].score() == Some(p0.score));
+    match ps[0].as_original() { GenericPlayer::QuakeTwo(x) => assert!(core::ptr::eq(x, p0)), _ => assert!(false) }
+    match r.as_original() { GenericResponse::Quake(VersionedResponse::TwoAndThree(x)) => assert!(core::ptr::eq(x, &r)), _ => assert!(false) }
+    let j = r.as_json();
+    assert!(j.name == r.name() && j.map == r.map() && j.game_mode.is_none() && j.game_version.is_none() && j.description.is_none());
+    assert!(j.players_maximum == r.players_maximum() && j.players_online == r.players_online() && j.players_bots.is_none() && j.has_password.is_none());
+    let jp = j.players.as_ref().unwrap();
+    assert!(jp.len() == 1 && same_str(jp[0].name, &p0.name) && jp[0].score == Some(p0.score));
+    core::mem::forget(j); core::mem::forget(ps); core::mem::forget(r);
+}
+
+// ---------------------------------------------------------------------------------------------
+// Unreal2
+// ---------------------------------------------------------------------------------------------
+
+#[kani::proof]
+#[kani::unwind(4)]
+fn common_unreal2() {
+    use crate::protocols::unreal2::{MutatorsAndRules, Player, Players, Response, ServerInfo};
+    let p = Player { id: kani::any(), name: String::from("pl"), ping: kani::any(), score: kani::any(), stats_id: kani::any() };
+    let r = Response {
+        server_info: ServerInfo {
+            server_id: kani::any(), ip: String::from("ip"), game_port: kani::any(), query_port: kani::any(),
+            name: String::from("nm"), map: String::from("mp"), game_type: String::from("gt"),
+            num_players: kani::any(), max_players: kani::any(), password: kani::any(),
+        },
+        mutators_and_rules: MutatorsAndRules { mutators: empty_set(), rules: empty_map() },
+        players: Players { players: vec![p], bots: Vec::new() },
+    };
+    assert!(opt_same(r.name(), &r.server_info.name));
+    assert!(opt_same(r.map(), &r.server_info.map));
+    assert!(opt_same(r.game_mode(), &r.server_info.game_type));
+    assert!(r.game_version().is_none());
+    assert!(r.description().is_none());
+    assert!(r.players_maximum() == r.server_info.max_players);
+    assert!(r.players_online() == r.server_info.num_players);
+    assert!(r.players_bots().is_none());
+    // RESPONSES.md leaves has_password blank for Unreal2, but ServerInfo has the field `password`: that is the value to report.
+    assert!(r.has_password() == Some(r.server_info.password));
+    let ps = r.players().unwrap();
+    assert!(ps.len() == 1);
+    let p0 = &r.players.players[0];
+    assert!(same_str(ps[0].name(), &p0.name));
+    assert!(ps[0].score() == Some(p0.score));
+    match ps[0].as_original() { GenericPlayer::Unreal2(x) => assert!(core::ptr::eq(x, p0)), _ => assert!(false) }
+    match r.as_original() { GenericResponse::Unreal2(x) => assert!(core::ptr::eq(x, &r)), _ => assert!(false) }
+    let j = r.as_json();
+    assert!(j.name == r.name() && j.map == r.map() && j.game_mode == r.game_mode() && j.game_version.is_none() && j.description.is_none());
+    assert!(j.players_maximum == r.players_maximum() && j.players_online == r.players_online() && j.players_bots.is_none() && j.has_password == r.has_password());
+    let jp = j.players.as_ref().unwrap();
+    assert!(jp.len() == 1 && same_str(jp[0].name, &p0.name) && jp[0].score == Some(p0.score));
+    core::mem::forget(j); core::mem::forget(ps); core::mem::forget(r);
+}
+
+// ---------------------------------------------------------------------------------------------
+// Epic (needs --features tls)
+// ---------------------------------------------------------------------------------------------
+
+#[cfg(feature = "tls")]
+#[kani::proof]
+#[kani::unwind(4)]
+fn common_epic() {
+    use crate::protocols::epic::{Player, Response};
+    let p = Player { name: String::from("pl") };
+    let r = Response {
+        name: String::from("nm"), map: String::from("mp"), has_password: kani::any(), players_online: kani::any(), players_maxmimum: kani::any(),
+        players: vec![p], game_version: Some(String::from("v")), raw: serde_json::Value::Null,
+    };
+    assert!(opt_same(r.name(), &r.name));
+    assert!(opt_same(r.map(), &r.map));
+    assert!(r.game_mode().is_none());
+    assert!(opt_same(r.game_version(), r.game_version.as_ref().unwrap()));
+    assert!(r.description().is_none());
+    assert!(r.players_maximum() == r.players_maxmimum);
+    assert!(r.players_online() == r.players_online);
+    assert!(r.players_bots().is_none());
+    assert!(r.has_password() == Some(r.has_password));
+    let ps = r.players().unwrap();
+    assert!(ps.len() == 1);
+    let p0 = &r.players[0];
+    assert!(same_str(ps[0].name(), &p0.name));
+    assert!(ps[0].score().is_none());
+    match ps[0].as_original() { GenericPlayer::Epic(x) => assert!(core::ptr::eq(x, p0)), _ => assert!(false) }
+    match r.as_original() { GenericResponse::Epic(x) => assert!(core::ptr::eq(x, &r)), _ => assert!(false) }
+    let j = r.as_json();
+    assert!(j.name == r.name() && j.map == r.map() && j.game_mode.is_none() && j.game_version == r.game_version() && j.description.is_none());
+    assert!(j.players_maximum == r.players_maximum() && j.players_online == r.players_online() && j.players_bots.is_none() && j.has_password == r.has_password());
+    let jp = j.players.as_ref().unwrap();
+    assert!(jp.len() == 1 && same_str(jp[0].name, &p0.name) && jp[0].score.is_none());
+    core::mem::forget(j); core::mem::forget(ps); core::mem::forget(r);
+}
+
+// ---------------------------------------------------------------------------------------------
+// Proprietary: FFOW, The Ship, JC2M, Savage 2, Minetest, Mindustry, Eco
+// ---------------------------------------------------------------------------------------------
+
+#[cfg(feature = "games")]
+#[kani::proof]
+#[kani::unwind(4)]
+fn common_ffow() {
+    use crate::games::ffow::Response;
+    use crate::protocols::valve::{Environment, Server};
+    let r = Response {
+        protocol_version: kani::any(), name: String::from("nm"), active_mod: String::from("am"), game_mode: String::from("gm"),
+        game_version: String::from("v"), description: String::from("ds"), map: String::from("mp"),
+        players_online: kani::any(), players_maximum: kani::any(), server_type: Server::Dedicated, environment_type: Environment::Linux,
+        has_password: kani::any(), vac_secured: kani::any(), round: kani::any(), rounds_maximum: kani::any(), time_left: kani::any(),
+    };
+    assert!(opt_same(r.name(), &r.name));
+    assert!(opt_same(r.map(), &r.map));
+    assert!(opt_same(r.game_mode(), &r.game_mode));
+    assert!(opt_same(r.game_version(), &r.game_version));
+    assert!(opt_same(r.description(), &r.description));
+    assert!(r.players_maximum() == r.players_maximum as u32);
+    assert!(r.players_online() == r.players_online as u32);
+    assert!(r.players_bots().is_none());
+    assert!(r.has_password() == Some(r.has_password));
+    assert!(r.players().is_none());
+    match r.as_original() { GenericResponse::FFOW(x) => assert!(core::ptr::eq(x, &r)), _ => assert!(false) }
+    let j = r.as_json();
+    assert!(j.name == r.name() && j.map == r.map() && j.game_mode == r.game_mode() && j.game_version == r.game_version() && j.description == r.description());
+    assert!(j.players_maximum == r.players_maximum() && j.players_online == r.players_online() && j.players_bots.is_none() && j.has_password == r.has_password());
+    assert!(j.players.is_none());
+    core::mem::forget(j); core::mem::forget(r);
+}
+
+// Everything of The Ship's view except game_version (see common_theship_game_version).
+#[cfg(feature = "games")]
+#[kani::proof]
+#[kani::unwind(4)]
+fn common_theship() {
+    use crate::games::theship::{Response, TheShipPlayer};
+    use crate::protocols::valve::Server;
+    let p = TheShipPlayer { name: String::from("pl"), score: kani::any(), duration: 1.5, deaths: kani::any(), money: kani::any() };
+    let r = Response {
+        protocol_version: kani::any(), name: String::from("nm"), map: String::from("mp"), game_mode: String::from("gm"), game_version: String::from("v"),
+        players: vec![p], players_online: kani::any(), players_maximum: kani::any(), players_bots: kani::any(),
+        server_type: Server::Dedicated, has_password: kani::any(), vac_secured: kani::any(),
+        port: None, steam_id: None, tv_port: None, tv_name: None, keywords: None, rules: empty_map(),
+        mode: kani::any(), witnesses: kani::any(), duration: kani::any(),
+    };
+    assert!(opt_same(r.name(), &r.name));
+    assert!(opt_same(r.map(), &r.map));
+    assert!(opt_same(r.game_mode(), &r.game_mode));
+    assert!(r.description().is_none());
+    assert!(r.players_maximum() == r.players_maximum as u32);
+    assert!(r.players_online() == r.players_online as u32);
+    assert!(r.players_bots() == Some(r.players_bots as u32));
+    assert!(r.has_password() == Some(r.has_password));
+    let ps = r.players().unwrap();
+    assert!(ps.len() == 1);
+    let p0 = &r.players[0];
+    assert!(same_str(ps[0].name(), &p0.name));
+    assert!(ps[0].score() == Some(p0.score));
+    match ps[0].as_original() { GenericPlayer::TheShip(x) => assert!(core::ptr::eq(x, p0)), _ => assert!(false) }
+    match r.as_original() { GenericResponse::TheShip(x) => assert!(core::ptr::eq(x, &r)), _ => assert!(false) }
+    let j = r.as_json();
+    assert!(j.name == r.name() && j.map == r.map() && j.game_mode == r.game_mode() && j.game_version == r.game_version() && j.description.is_none());
+    assert!(j.players_maximum == r.players_maximum() && j.players_online == r.players_online() && j.players_bots == r.players_bots() && j.has_password == r.has_password());
+    let jp = j.players.as_ref().unwrap();
+    assert!(jp.len() == 1 && same_str(jp[0].name, &p0.name) && jp[0].score == Some(p0.score));
+    core::mem::forget(j); core::mem::forget(ps); core::mem::forget(r);
+}
+
+// (was failing before the fix in /repo: see known_findings.txt) RESPONSES.md lists game_version (`String`) for TheShip and theship::Response has the field
+// `game_version`, but `impl CommonResponse for theship::Response` does not override game_version(), so the generic
+// view (and its JSON form) reports None.
+#[cfg(feature = "games")]
+#[kani::proof]
+#[kani::unwind(4)]
+fn common_theship_game_version() {
+    use crate::games::theship::Response;
+    use crate::protocols::valve::Server;
+    let r = Response {
+        protocol_version: kani::any(), name: String::from("nm"), map: String::from("mp"), game_mode: String::from("gm"), game_version: String::from("v"),
+        players: Vec::new(), players_online: kani::any(), players_maximum: kani::any(), players_bots: kani::any(),
+        server_type: Server::Dedicated, has_password: kani::any(), vac_secured: kani::any(),
+        port: None, steam_id: None, tv_port: None, tv_name: None, keywords: None, rules: empty_map(),
+        mode: kani::any(), witnesses: kani::any(), duration: kani::any(),
+    };
+    assert!(opt_same(r.game_version(), &r.game_version));
+    let j = r.as_json();
+    assert!(opt_same(j.game_version, &r.game_version));
+    core::mem::forget(j); core::mem::forget(r);
+}
+
+#[cfg(feature = "games")]
+#[kani::proof]
+#[kani::unwind(4)]
+fn common_jc2m() {
+    use crate::games::jc2m::{Player, Response};
+    let p = Player { name: String::from("pl"), steam_id: String::from("id"), ping: kani::any() };
+    let r = Response {
+        game_version: String::from("v"), description: String::from("ds"), name: String::from("nm"), has_password: kani::any(),
+        players: vec![p], players_maximum: kani::any(), players_online: kani::any(),
+    };
+    assert!(opt_same(r.name(), &r.name));
+    assert!(r.map().is_none());
+    assert!(r.game_mode().is_none());
+    assert!(opt_same(r.game_version(), &r.game_version));
+    assert!(opt_same(r.description(), &r.description));
+    assert!(r.players_maximum() == r.players_maximum);
+    assert!(r.players_online() == r.players_online);
+    assert!(r.players_bots().is_none());
+    assert!(r.has_password() == Some(r.has_password));
+    let ps = r.players().unwrap();
+    assert!(ps.len() == 1);
+    let p0 = &r.players[0];
+    assert!(same_str(ps[0].name(), &p0.name));
+    assert!(ps[0].score().is_none());
+    match ps[0].as_original() { GenericPlayer::JCMP2(x) => assert!(core::ptr::eq(x, p0)), _ => assert!(false) }
+    match r.as_original() { GenericResponse::JC2M(x) => assert!(core::ptr::eq(x, &r)), _ => assert!(false) }
+    let j = r.as_json();
+    assert!(j.name == r.name() && j.map.is_none() && j.game_mode.is_none() && j.game_version == r.game_version() && j.description == r.description());
+    assert!(j.players_maximum == r.players_maximum() && j.players_online == r.players_online() && j.players_bots.is_none() && j.has_password == r.has_password());
+    let jp = j.players.as_ref().unwrap();
+    assert!(jp.len() == 1 && same_str(jp[0].name, &p0.name) && jp[0].score.is_none());
+    core::mem::forget(j); core::mem::forget(ps); core::mem::forget(r);
+}
+
+#[cfg(feature = "games")]
+#[kani::proof]
+#[kani::unwind(4)]
+fn common_savage2() {
+    use crate::games::savage2::Response;
+    let r = Response {
+        name: String::from("nm"), players_online: kani::any(), players_maximum: kani::any(), players_minimum: kani::any(),
+        time: String::from("t"), map: String::from("mp"), next_map: String::from("nx"), location: String::from("lc"),
+        game_mode: String::from("gm"), protocol_version: String::from("pv"), level_minimum: kani::any(),
+    };
+    assert!(opt_same(r.name(), &r.name));
+    assert!(opt_same(r.map(), &r.map));
+    assert!(opt_same(r.game_mode(), &r.game_mode));
+    assert!(r.game_version().is_none());
+    assert!(r.description().is_none());
+    assert!(r.players_maximum() == r.players_maximum as u32);
+    assert!(r.players_online() == r.players_online as u32);
+    assert!(r.players_bots().is_none());
+    assert!(r.has_password().is_none());
+    assert!(r.players().is_none());
+    match r.as_original() { GenericResponse::Savage2(x) => assert!(core::ptr::eq(x, &r)), _ => assert!(false) }
+    let j = r.as_json();
+    assert!(j.name == r.name() && j.map == r.map() && j.game_mode == r.game_mode() && j.game_version.is_none() && j.description.is_none());
+    assert!(j.players_maximum == r.players_maximum() && j.players_online == r.players_online() && j.players_bots.is_none() && j.has_password.is_none());
+    assert!(j.players.is_none());
+    core::mem::forget(j); core::mem::forget(r);
+}
+
+// needs --features tls,serde (and the default feature services)
+#[cfg(all(feature = "services", feature = "tls", feature = "serde", feature = "games"))]
+#[kani::proof]
+#[kani::unwind(4)]
+fn common_minetest() {
+    use crate::games::minetest::{Player, Response};
+    let p = Player { name: String::from("pl") };
+    let hp: bool = kani::any();
+    let r = Response {
+        name: String::from("nm"), description: String::from("ds"), game_version: String::from("v"),
+        players_maximum: kani::any(), players_online: kani::any(), has_password: if kani::any() { Some(hp) } else { None },
+        players: vec![p], id: String::from("id"), ip: String::from("ip"), port: kani::any(), creative: None, damage: kani::any(),
+        game_time: kani::any(), lag: None, proto_max: kani::any(), proto_min: kani::any(), pvp: kani::any(), uptime: kani::any(),
+        url: None, update_time: kani::any(), start: kani::any(), clients_top: kani::any(), updates: kani::any(), pop_v: 1.5,
+        geo_continent: None, ping: 0.5,
+    };
+    assert!(opt_same(r.name(), &r.name));
+    assert!(r.map().is_none());
+    assert!(r.game_mode().is_none());
+    assert!(opt_same(r.game_version(), &r.game_version));
+    assert!(opt_same(r.description(), &r.description));
+    assert!(r.players_maximum() == r.players_maximum);
+    assert!(r.players_online() == r.players_online);
+    assert!(r.players_bots().is_none());
+    assert!(r.has_password() == r.has_password);
+    let ps = r.players().unwrap();
+    assert!(ps.len() == 1);
+    let p0 = &r.players[0];
+    assert!(same_str(ps[0].name(), &p0.name));
+    assert!(ps[0].score().is_none());
+    match ps[0].as_original() { GenericPlayer::Minetest(x) => assert!(core::ptr::eq(x, p0)), _ => assert!(false) }
+    match r.as_original() { GenericResponse::Minetest(x) => assert!(core::ptr::eq(x, &r)), _ => assert!(false) }
+    let j = r.as_json();
+    assert!(j.name == r.name() && j.map.is_none() && j.game_mode.is_none() && j.game_version == r.game_version() && j.description == r.description());
+    assert!(j.players_maximum == r.players_maximum() && j.players_online == r.players_online() && j.players_bots.is_none() && j.has_password == r.has_password());
+    let jp = j.players.as_ref().unwrap();
+    assert!(jp.len() == 1 && same_str(jp[0].name, &p0.name) && jp[0].score.is_none());
+    core::mem::forget(j); core::mem::forget(ps); core::mem::forget(r);
+}
+
+#[cfg(feature = "games")]
+#[kani::proof]
+#[kani::unwind(10)] // the game mode names are compared by content: up to 8 bytes ("survival", "sandbox")
+fn common_mindustry() {
+    use crate::games::mindustry::types::{GameMode, ServerData};
+    let gm: u8 = kani::any();
+    kani::assume(gm <= 4);
+    let r = ServerData {
+        host: String::from("h"), map: String::from("mp"), players: kani::any(), wave: kani::any(), version: kani::any(),
+        version_type: String::from("vt"), gamemode: GameMode::try_from(gm).unwrap(), player_limit: kani::any(),
+        description: String::from("ds"), mode_name: None,
+    };
+    // ServerData has no server-name string by that name/documentation (`host` is undocumented) and no version string.
+    assert!(r.name().is_none());
+    assert!(r.game_version().is_none());
+    assert!(opt_same(r.map(), &r.map));
+    assert!(opt_same(r.description(), &r.description));
+    // the enum is rendered as the lower-case name Mindustry itself uses
+    let expected_mode = match r.gamemode {
+        GameMode::Survival => "survival", GameMode::Sandbox => "sandbox", GameMode::Attack => "attack",
+        GameMode::PVP => "pvp", GameMode::Editor => "editor",
+    };
+    assert!(r.game_mode() == Some(expected_mode));
+    // negative counts are reported as 0, everything else unchanged
+    assert!(r.players_online() == if r.players < 0 { 0 } else { r.players as u32 });
+    assert!(r.players_maximum() == if r.player_limit < 0 { 0 } else { r.player_limit as u32 });
+    assert!(r.players_bots().is_none());
+    assert!(r.has_password().is_none());
+    assert!(r.players().is_none());
+    match r.as_original() { GenericResponse::Mindustry(x) => assert!(core::ptr::eq(x, &r)), _ => assert!(false) }
+    let j = r.as_json();
+    assert!(j.name.is_none() && j.map == r.map() && j.game_mode == Some(expected_mode) && j.game_version.is_none() && j.description == r.description());
+    assert!(j.players_maximum == r.players_maximum() && j.players_online == r.players_online() && j.players_bots.is_none() && j.has_password.is_none());
+    assert!(j.players.is_none());
+    core::mem::forget(j); core::mem::forget(r);
+}
+
+#[cfg(feature = "games")]
+#[kani::proof]
+#[kani::unwind(4)]
+fn common_eco() {
+    use crate::games::eco::{Player, Response};
+    let p = Player { name: String::from("pl") };
+    let r = Response {
+        external: kani::any(), port: kani::any(), query_port: kani::any(), is_lan: kani::any(),
+        description: String::from("ds"), description_detailed: String::from("dd"), description_economy: String::from("de"),
+        category: String::from("c"), players_online: kani::any(), players_maximum: kani::any(), players: vec![p],
+        admin_online: kani::any(), time_since_start: 1.5, time_left: 2.5, animals: kani::any(), plants: kani::any(), laws: kani::any(),
+        world_size: String::from("ws"), game_version: String::from("v"), skill_specialization_setting: String::from("ss"),
+        language: String::from("l"), has_password: kani::any(), has_meteor: kani::any(),
+        distribution_station_items: String::from("di"), playtimes: String::from("pt"), discord_address: String::from("da"),
+        is_paused: kani::any(), active_and_online_players: kani::any(), peak_active_players: kani::any(), max_active_players: kani::any(),
+        shelf_life_multiplier: 0.5, exhaustion_after_hours: 3.5, is_limiting_hours: kani::any(),
+        server_achievements_dict: empty_map(), relay_address: String::from("ra"), access: String::from("a"), connect: String::from("cn"),
+    };
+    assert!(r.name().is_none());
+    assert!(r.map().is_none());
+    assert!(r.game_mode().is_none());
+    assert!(opt_same(r.game_version(), &r.game_version));
+    assert!(opt_same(r.description(), &r.description));
+    assert!(r.players_maximum() == r.players_maximum);
+    assert!(r.players_online() == r.players_online);
+    assert!(r.players_bots().is_none());
+    assert!(r.has_password() == Some(r.has_password));
+    let ps = r.players().unwrap();
+    assert!(ps.len() == 1);
+    let p0 = &r.players[0];
+    assert!(same_str(ps[0].name(), &p0.name));
+    assert!(ps[0].score().is_none());
+    match ps[0].as_original() { GenericPlayer::Eco(x) => assert!(core::ptr::eq(x, p0)), _ => assert!(false) }
+    match r.as_original() { GenericResponse::Eco(x) => assert!(core::ptr::eq(x, &r)), _ => assert!(false) }
+    let j = r.as_json();
+    assert!(j.name.is_none() && j.map.is_none() && j.game_mode.is_none() && j.game_version == r.game_version() && j.description == r.description());
+    assert!(j.players_maximum == r.players_maximum() && j.players_online == r.players_online() && j.players_bots.is_none() && j.has_password == r.has_password());
+    let jp = j.players.as_ref().unwrap();
+    assert!(jp.len() == 1 && same_str(jp[0].name, &p0.name) && jp[0].score.is_none());
     core::mem::forget(j); core::mem::forget(ps); core::mem::forget(r);
 }
